@@ -287,6 +287,30 @@ def mutate_invalid(rng, tokens):
     return toks, 'UnableToParse'
 
 
+def split_inside_token(rng, tokens):
+    """
+    A tab / line break / no-break space *inside* a name or a number: only plain spaces are
+    removed before parsing, so this is two adjacent atoms and must be refused -- although it
+    differs from a valid string only by whitespace (a cache key that normalises more than
+    spaces would collide with it).  Returns the text or None.
+    """
+    import re as _re
+    cands = []
+    for k, (t, kind) in enumerate(tokens):
+        if kind in ('var', 'func') and len(t) >= 2:
+            cands.append((k, rng.randrange(1, len(t))))
+        elif kind == 'num' and _re.match(r'\d\d', t):
+            cands.append((k, 1))
+    if not cands:
+        return None
+    k, pos = rng.choice(cands)
+    ws = rng.choice(['\t', '\n', '\xa0', '\r', ' \t'])
+    out = []
+    for idx, (t, kind) in enumerate(tokens):
+        out.append(t[:pos] + ws + t[pos:] if idx == k else t)
+    return ''.join(out)
+
+
 def make_alphabet(rng, size=12, depth=3):
     """
     A small alphabet of strings for one run: confusable names, valid and malformed strings,
@@ -340,4 +364,8 @@ def make_alphabet(rng, size=12, depth=3):
         out.append({'texts': texts,
                     'truth': {'v': sorted(node.v), 'f': sorted(node.f), 's': sorted(node.s)},
                     'err': None})
+        if rng.random() < 0.25 and len(out) < size:
+            broken = split_inside_token(rng, node.tokens)
+            if broken is not None:
+                out.append({'texts': [broken], 'truth': None, 'err': 'UnableToParse'})
     return out
